@@ -65,6 +65,28 @@ impl TypeResolver {
         parts
     }
 
+    /// Drop module paths from a printed type: `std::collections::HashMap<String, models::User>`
+    /// becomes `HashMap<String, User>`. TypeScript has no `::`; a type is identified by its name,
+    /// exactly as for unqualified uses of the same type.
+    pub fn strip_path_qualifiers(ty: &str) -> String {
+        let mut out = String::with_capacity(ty.len());
+        // byte index in `out` at which the identifier currently being copied started
+        let mut ident_start = 0;
+        let mut chars = ty.chars().peekable();
+        while let Some(c) = chars.next() {
+            if c == ':' && chars.peek() == Some(&':') {
+                chars.next();
+                out.truncate(ident_start);
+                continue;
+            }
+            out.push(c);
+            if !(c.is_alphanumeric() || c == '_') {
+                ident_start = out.len();
+            }
+        }
+        out
+    }
+
     /// Extract inner type from Option<T>
     fn extract_option_inner_type(&self, rust_type: &str) -> Option<String> {
         if rust_type.starts_with("Option<") && rust_type.ends_with('>') {
